@@ -79,6 +79,31 @@ def rust_str(b):
     return '"' + "".join(out) + '"'
 
 
+def rust_str_spelled(b, style):
+    """the same bytes SPELLED differently in the source: escapes, a line continuation, a raw string --
+    what the macro must see is the string the literal denotes, not its spelling"""
+    t = b.decode("ascii")
+    if style == "raw":
+        return 'r"' + t + '"'
+    if style == "rawhash":
+        return 'r#"' + t + '"#'
+    out = []
+    for i, ch in enumerate(t):
+        if style == "hex" and i % 3 == 1:
+            out.append("\\x%02x" % ord(ch))
+        elif style == "unicode" and i % 4 == 2:
+            out.append("\\u{%x}" % ord(ch))
+        elif style == "continuation" and i > 0 and i % 30 == 0:
+            out.append("\\\n            " + ch)
+        else:
+            out.append(ch)
+    return '"' + "".join(out) + '"'
+
+
+# literals whose macro invocation is spelled with escapes: (macro, text) -> style
+SPELL = {}
+
+
 # ------------------------------------------------------------------------------ C16
 DNA = b"ACGT"
 IUPAC = b"ACGTRYSWKMBDHVN-"
@@ -113,6 +138,15 @@ def c16_items(tier, rng):
         t = lit_text(DNA, n, 3 * n + 1)
         pair = [("dna", t), ("iupac", t)]
         valid.extend(pair if j % 2 == 0 else pair[::-1])
+    # the same kind of texts, SPELLED with escapes / a line continuation / as raw strings
+    SPELL.clear()
+    styles = ["hex", "unicode", "continuation", "raw", "rawhash"]
+    for j, n in enumerate([5, 33, 64, 95, 130] if tier == "quick" else [2, 5, 31, 33, 64, 65, 95, 130, 200, 260]):
+        for macro, alpha in (("dna", DNA), ("iupac", IUPAC)):
+            t = lit_text(alpha, n, 11 * n + j)
+            if (macro, t) not in SPELL and (macro, t) not in valid:
+                valid.append((macro, t))
+                SPELL[(macro, t)] = styles[(j + (macro == "iupac")) % len(styles)]
     kmers = []
     for k in ([1, 2, 3, 15, 16, 17, 31, 32] if tier == "quick" else list(range(1, 33))):
         kmers.append((lit_text(DNA, k, k), "usize"))
@@ -164,7 +198,8 @@ def c16_sources(valid, kmers):
             json!({"v": view(l), "eqparse": eq, "hasheq": h})
         })).unwrap_or(json!({"panic": true}));
         println!("{}", json!({"op": "litprog", "macro": "%s", "bytes": bytes, "obs": obs}));
-    }""" % (rust_str(t), ty, macro, rust_str(t), ty, rust_str(rt), rust_str(rt), macro))
+    }""" % (rust_str(t), ty, macro, rust_str_spelled(t, SPELL[(macro, t)]) if (macro, t) in SPELL else rust_str(t),
+            ty, rust_str(rt), rust_str(rt), macro))
     for t, st in kmers:
         k = len(t)
         mac = "kmer!(%s)" % rust_str(t) if st == "usize" else "kmer!(%s, %s)" % (rust_str(t), st)
